@@ -405,7 +405,8 @@ def load_kern(
             d_mul += 1
         unique_durs = unique_durs.astype(int)
         divs_pq = np.lcm.reduce(unique_durs)
-        divs_pq = max(divs_pq, 4)
+        # at least 4 divisions per quarter, and still a multiple of every reciprocal
+        divs_pq = np.lcm(divs_pq, 4)
 
         if same_part:
             divs_pq = np.lcm.reduce([divs_pq, part._quarter_durations[0]])
